@@ -15,6 +15,10 @@ CHECKS = {
             'bounded whole loop, boundary merge) is an SMT query over all real-valued inputs inside the stated bounds; unsat = holds.'),
 }
 
+CHECKS['C14'] = ('3/C14', 'The real per-step pressure-drop methods are run over an arbitrary symbolic partition of a region (planes, '
+                 'rounded steps, grid positions incl. exactly on a plane, all coefficients); closed forms, non-negativity and '
+                 'exactly-once grid counting are SMT queries on every path of the grid-in-step test.')
+
 NOT_APPLICABLE = {
     'C16': ('No symbolic dimension for a solver: process schedules/multiprocessing/file output, bitwise IEEE determinism, and '
             'object-identity/type mutation of the input dictionary on `is None`/key-presence branches (DESIGN section 4).'),
